@@ -14,19 +14,19 @@ open Gzx Gzx.QRDec Gzx.QRComp Gzx.QREnc Gzx.Properties.C01
 /-- the modules of a ByteMatrix as the decoder's matrix (1 = dark) -/
 def modulesOf (m : ByteMatrix) : Matrix := matrixOf (m.bytes.map (fun r => r.map (· == 1)))
 
-/-- `mirror_symbol_roundtrip`: for every version 1..10 (1..40 given `FuncOK v`), level, forced mask 0..7 or
+/-- `mirror_symbol_roundtrip`: for every version 1..40, level, forced mask 0..7 or
     automatic choice, and every payload that fits: the matrix the mirror of the Go encoder builds decodes (decoder
     model with the C04 Reed-Solomon decoder, first attempt, not mirrored) to what the bit-stream parser makes of the
     payload, with the level, the version and exactly the data codewords that were written. -/
-theorem mirror_symbol_roundtrip_partial {K : Kernels} (hK : KernelsOK K) (T : Tables) (hT : TablesConform T) (hint : ECI.Hint)
-    (v : Nat) (h1 : 1 ≤ v) (h40 : v ≤ 40) (hf : FuncOK v) (ec : QRRef.EC)
+theorem mirror_symbol_roundtrip {K : Kernels} (hK : KernelsOK K) (T : Tables) (hT : TablesConform T) (hint : ECI.Hint)
+    (v : Nat) (h1 : 1 ≤ v) (h40 : v ≤ 40) (ec : QRRef.EC)
     (forced : Option Nat) (hforced : ∀ k, forced = some k → k < 8) (payload : List Bool)
     (hfit : payload.length ≤ 8 * QRRef.dataCodewords v ec) (parsed : Parsed)
     (hparse : ∀ tail, Terminated tail → parseStream T.eci (payload ++ tail) v hint = .ok parsed) :
     ∃ mask M, backHalf K v ec forced payload = .ok (mask, M) ∧
       decode T rsQR hint (modulesOf M) =
         .ok ⟨parsed, toDecEC ec, v, QRRef.terminate (QRRef.dataCodewords v ec) payload, false⟩ := by
-  refine ⟨_, _, backHalf_eq_ref hK v h1 h40 hf ec forced hforced payload hfit, ?_⟩
+  refine ⟨_, _, backHalf_eq_ref hK v h1 h40 (funcOK_all v h1 h40) ec forced hforced payload hfit, ?_⟩
   unfold modulesOf
   rw [Gzx.Properties.C07Mirror.refByteMatrix_modules]
   have hm : forced.getD (QRRef.chooseMask v ec (refCodewords v ec payload)) < 8 := by
@@ -51,16 +51,71 @@ theorem mirror_symbol_roundtrip_partial {K : Kernels} (hK : KernelsOK K) (T : Ta
       exact this _ _ (by decide) (fun k hk => List.mem_range.mp hk)
   exact qr_roundtrip_bits T hT hint v h1 h40 ec _ hm payload hfit parsed hparse
 
-/-- versions 1..10: no per-version hypothesis -/
-theorem mirror_symbol_roundtrip {K : Kernels} (hK : KernelsOK K) (T : Tables) (hT : TablesConform T) (hint : ECI.Hint)
-    (v : Nat) (h1 : 1 ≤ v) (h10 : v ≤ 10) (ec : QRRef.EC)
-    (forced : Option Nat) (hforced : ∀ k, forced = some k → k < 8) (payload : List Bool)
-    (hfit : payload.length ≤ 8 * QRRef.dataCodewords v ec) (parsed : Parsed)
-    (hparse : ∀ tail, Terminated tail → parseStream T.eci (payload ++ tail) v hint = .ok parsed) :
-    ∃ mask M, backHalf K v ec forced payload = .ok (mask, M) ∧
-      decode T rsQR hint (modulesOf M) =
-        .ok ⟨parsed, toDecEC ec, v, QRRef.terminate (QRRef.dataCodewords v ec) payload, false⟩ :=
-  mirror_symbol_roundtrip_partial hK T hT hint v h1 (by omega) (funcOK_small v h1 h10) ec forced hforced payload hfit parsed hparse
+/-- `mirror_encode_roundtrip` (wp `enc2`): the WHOLE mirrored `Encoder_encode` call composed with the decoder model — for
+    every content, valid level, known CHARACTER_SET and hints of any type (codec parameters as in
+    `C07Mirror.mirror_encode_eq_ref`): whenever the reference has a data segment for the mode of the mode analysis
+    and a version is admissible, the call returns a symbol, and the decoder model reads from its matrix what the
+    bit-stream parser makes of the reference payload (header segments, character count, data), with the level, the
+    version and exactly the data codewords that were written. -/
+theorem mirror_encode_roundtrip {K : Kernels} (hK : KernelsOK K) (T : Tables) (hT : TablesConform T) (hint : ECI.Hint)
+    (inp : EncInput) (ec : QRRef.EC) (hec : ecOfInt inp.ecLevel = some ec)
+    (hcs : ∀ cs, inp.charset = some cs → cs.known = true)
+    (hsj : ∀ bs, inp.sjis = some bs → ∀ b ∈ bs, b < 256)
+    (hrc : ∀ bs, inp.sjis = some bs → modeOf inp = .kanji → inp.runeCount = bs.length / 2)
+    (he : ∀ e, eciOf inp (modeOf inp) = some e → e < 128)
+    (count : Nat) (data : List Bool) (href : refSegment inp (modeOf inp) = some (count, data)) (v : Nat)
+    (hv : versionChoice inp ec (modeOf inp)
+      (QRRef.headerBits (eciOf inp (modeOf inp)) (gs1OfHint inp.gs1) (modeOf inp)).length data.length = some v)
+    (parsed : Parsed)
+    (hparse : ∀ tail, Terminated tail →
+      parseStream T.eci (QRRef.payloadBits v (QRRef.headerBits (eciOf inp (modeOf inp)) (gs1OfHint inp.gs1) (modeOf inp))
+        (modeOf inp) count data ++ tail) v hint = .ok parsed) :
+    ∃ t, encode K inp = .ok t ∧ t.version = v ∧
+      decode T rsQR hint (modulesOf t.matrix) =
+        .ok ⟨parsed, toDecEC ec, v, QRRef.terminate (QRRef.dataCodewords v ec) t.headerAndDataBits, false⟩ := by
+  have hfull := Gzx.Properties.C07Mirror.mirror_encode_eq_ref hK inp ec hec hcs hsj hrc he
+  rw [href] at hfull
+  simp only at hfull
+  rw [hv] at hfull
+  simp only at hfull
+  obtain ⟨t, ht, _, htv, hhd, _, _, hmat⟩ := hfull
+  obtain ⟨h1, h40, hfitb⟩ := versionChoice_range hv
+  have hfit : t.headerAndDataBits.length ≤ 8 * QRRef.dataCodewords v ec := by
+    rw [hhd]
+    unfold QRRef.fitsBits at hfitb
+    simp only [decide_eq_true_eq] at hfitb
+    unfold QRRef.payloadBits
+    simp only [List.length_append, QRRef.toBitsBE, List.length_map, List.length_range]
+    omega
+  -- the mask as a forced / automatic choice
+  let forced : Option Nat := if maskOfHint inp.mask = -1 then none else some (maskOfHint inp.mask).toNat
+  have hforced : ∀ k, forced = some k → k < 8 := by
+    intro k hk
+    rcases maskOfHint_cases inp.mask with hauto | ⟨j, hj, hjj⟩
+    · simp [forced, hauto] at hk
+    · have hne : ¬ ((j : Int) = -1) := by omega
+      simp only [forced, hjj, hne, if_false, Option.some.injEq, Int.toNat_natCast] at hk
+      omega
+  have hfm : finalMask inp.mask v ec t.headerAndDataBits =
+      forced.getD (QRRef.chooseMask v ec (refCodewords v ec t.headerAndDataBits)) := by
+    unfold finalMask
+    by_cases hauto : maskOfHint inp.mask = -1
+    · simp [forced, hauto]
+    · simp [forced, hauto]
+  obtain ⟨mask, M, hbh, hdec⟩ := mirror_symbol_roundtrip hK T hT hint v h1 h40 ec forced hforced t.headerAndDataBits hfit parsed
+    (by rw [hhd]; exact hparse)
+  rw [backHalf_eq_ref hK v h1 h40 (funcOK_all v h1 h40) ec forced hforced _ hfit] at hbh
+  simp only [Except.ok.injEq, Prod.mk.injEq] at hbh
+  refine ⟨t, ht, htv, ?_⟩
+  rw [hmat, hfm, hbh.2]
+  exact hdec
+
+/-- the segment and version hypotheses are satisfiable: "12", level M, no hints -> numeric segment, version 1 -/
+example : ∃ inp : EncInput, ∃ count data, ecOfInt inp.ecLevel = some .M ∧
+    refSegment inp (modeOf inp) = some (count, data) ∧
+    versionChoice inp .M (modeOf inp)
+      (QRRef.headerBits (eciOf inp (modeOf inp)) (gs1OfHint inp.gs1) (modeOf inp)).length data.length = some 1 :=
+  ⟨{ content := [49, 50], runeCount := 2, ecLevel := 0, encoded := some [49, 50] }, 2, QRRef.toBitsBE 7 12, rfl, by decide, by decide⟩
 
 example : ([] : List Bool).length ≤ 8 * QRRef.dataCodewords 1 .L := by decide
 
